@@ -244,7 +244,19 @@ async fn history(rng: &mut Rng, h: u64, strategy: AssignmentStrategy, f: &mut st
             f.flush().ok();
             REASSIGN_EVENTS.store(0, Ordering::Relaxed);
             REASSIGN_LIMIT.store(bound, Ordering::Relaxed);
-            let r = std::panic::AssertUnwindSafe(router.route_write(&shard)).catch_unwind().await;
+            // bounded time on the logical clock: the runtime's time is virtual and only moves while every task is
+            // idle, so an hour of it passing means the call was parked with nothing left that could wake it
+            let r = match tokio::time::timeout(std::time::Duration::from_secs(3600), std::panic::AssertUnwindSafe(router.route_write(&shard)).catch_unwind()).await {
+                Ok(r) => r,
+                Err(_) => {
+                    REASSIGN_LIMIT.store(u64::MAX, Ordering::Relaxed);
+                    routes += 1;
+                    violations.push(json!({"sig": format!("C19/route-write-never-returns/{:?}", strategy),
+                        "what": format!("route_write({}) was still parked after one hour of virtual time with {} nodes registered (nothing else was runnable; the call was dropped by the monitor)", shard, nnodes),
+                        "witness": json!({"history_index": h, "seed": seed, "strategy": format!("{:?}", strategy), "ops": ops})}));
+                    continue;
+                }
+            };
             REASSIGN_LIMIT.store(u64::MAX, Ordering::Relaxed);
             let steps = REASSIGN_EVENTS.load(Ordering::Relaxed);
             routes += 1;
